@@ -32,21 +32,27 @@ WORK = V.BUILD / "c18"
 FINDINGS = {
     "octal22": dict(
         key="octal",
-        text=("parseBitVector rejects valid octal literals with 22 or more digits: "
-              "parseBitVector(\"o0000000000000000000000\") throws the HCL_ASSERT of insertNonStraddling "
-              "(BitVectorState.h) because octal digit 21 occupies bits 63..65; 21 digits parse "
-              "(Coq: C18_parse_octal_22_digits_refuted)"),
-        probe=["S probe 2 1", "parse 0 o0000000000000000000000", "resize 0 1", "parse 0 o000000000000000000000", "E"]),
+        text=("parseBitVector must accept octal literals of 22 and more digits (digit 21 occupies bits 63..65, digit 42 "
+              "bits 126..128), also with X digits and a width prefix (regression of /repo 659d324)"),
+        probe=["S probe 2 1",
+               "parse 0 o0000000000000000000000", "resize 0 1",
+               "parse 0 o7000000000000000000001", "resize 0 1",
+               "parse 0 o12345670123456701234567", "resize 0 1",
+               "parse 0 o5x0000000000000000000X3", "resize 0 1",
+               "parse 0 o1234567012345670123456701234567012345670123", "resize 0 1",
+               "parse 0 o7X34567012345670123456x01234567012345670127", "resize 0 1",
+               "parse 0 130o1234567012345670123456701234567012345670123", "resize 0 1",
+               "parse 0 66o1234567012345670123456", "E"]),
     "random_then_resize_exposes_stale_bits": dict(
         key="createRandom",
         text=("createRandomDefaultBitVectorState(10) leaves random bits above size() in the last word: a copy that "
-              "compares equal differs after both are resize(30)d (regression of /repo 25f5b7d; "
+              "compares equal differs after both are resize(30)d (regression of /repo 0690f16; "
               "harness: build/harness/C18_bvs probe)"),
         probe=None),
     "fmt16_decimal_digits": dict(
         key="formatState",
         text=("formatState(base 16) does not print one hex digit per nibble: 16-bit 0x00AB must print \"AB\"/\"00AB\" "
-              "and 0x1011 \"1011\" (regression of /repo fff2228)"),
+              "and 0x1011 \"1011\" (regression of /repo b90a265)"),
         probe=["S probe 2 1", "resize 0 16", "setrange 0 1 0 16 1", "insw 0 0 0 16 ab", "fmt 0 16 1", "fmt 0 16 0",
                "insw 0 0 0 16 1011", "fmt 0 16 1", "E"]),
 }
@@ -595,15 +601,13 @@ def oracle_run(exe, lines, tag, timeout=600):
 
 
 def finding_of(m):
-    """classify an oracle mismatch as a confirmed finding that may be covered by a `known:` line, else None"""
+    """classify an oracle mismatch of the generated cases as a finding that a `known:` line of
+    KNOWN_FINDINGS.txt may cover; currently there is none: every mismatch is a violation"""
     t = m["op"].split()
-    if t[0] == "parse" and len(t) == 3 and re.match(r"^\d*o[0-7xX]{22,}$", t[2]):
-        if m["what"] == "result" and m["expected"] == "1" and m["observed"] == "0":
-            return "octal22"
-        if m["what"] == "contents-after":
-            return "octal22"      # the oracle register holds the parsed value, the real one is unchanged
-    if t[0] == "fmt" and t[2] == "16" and m["what"] == "result" and t[1] == "0" and m["seq"] == "probe":
+    if t[0] == "fmt" and t[2] == "16" and m["seq"] == "probe":
         return "fmt16_decimal_digits"
+    if t[0] == "parse" and m["seq"] == "probe":
+        return "octal22"
     return None
 
 
@@ -896,7 +900,7 @@ def main():
             pm = []
         else:
             pm, _, pout = oracle_run(exe, fd["probe"], "probe_" + fid)
-            present = any(finding_of(m) == fid for m in pm) if fid != "fmt16_decimal_digits" else bool(pm)
+            present = bool(pm)
         rep.cov.setdefault("finding_probes", {})[fid] = "present" if present else "absent"
         if not present:
             continue
